@@ -8,10 +8,12 @@ import (
 	"errors"
 	"time"
 
+	"github.com/AliceO2Group/Control/common/event"
 	"github.com/AliceO2Group/Control/common/utils/uid"
 	"github.com/AliceO2Group/Control/core/controlcommands"
 	"github.com/AliceO2Group/Control/core/task/taskclass"
 	vrt "github.com/AliceO2Group/Control/zz_vrt"
+	mesos "github.com/mesos/mesos-go/api/v1/lib"
 	"github.com/spf13/viper"
 )
 
@@ -36,19 +38,29 @@ func HarnessTransitionTasks() {
 	var tasks Tasks
 	outcome := map[string]int{}
 	critical := map[string]bool{}
+	executorLost := map[string]bool{}
 	for i := 0; i < n; i++ {
 		crit := vrt.Bool("critical")
 		t, _ := ftTask(names[i], env, crit)
 		tasks = append(tasks, t)
 		outcome[t.taskId] = vrt.IntRange("outcome", c02OK, c02Silent)
 		critical[t.taskId] = crit
+		if o := outcome[t.taskId]; n <= 2 && (o == c02SendFail || o == c02Silent) { // (with three tasks: without, for the size of the exploration)
+			executorLost[t.taskId] = vrt.Bool("executor.lost.while.the.command.is.in.flight")
+		}
 	}
 	var w *ftWorld
 	w = ftManager(tasks, func(cmd controlcommands.MesosCommand, rcv controlcommands.MesosCommandTarget) error {
 		switch outcome[rcv.TaskId.Value] {
-		case c02SendFail:
-			return errors.New("cannot send to " + rcv.TaskId.Value)
-		case c02Silent:
+		case c02SendFail, c02Silent:
+			// the command may be undeliverable / unanswered because the executor has just died: Mesos told the core,
+			// which took the executor id off the task (it is no longer "locked") - the task is as critical as before
+			if executorLost[rcv.TaskId.Value] {
+				w.m.HandleExecutorFailed(&event.ExecutorFailedEvent{ExecutorId: mesos.ExecutorID{Value: rcv.ExecutorId.Value}})
+			}
+			if outcome[rcv.TaskId.Value] == c02SendFail {
+				return errors.New("cannot send to " + rcv.TaskId.Value)
+			}
 			return nil
 		}
 		var e error
